@@ -124,8 +124,13 @@ pub fn exec(kv: &Kv) -> String {
             }
             "wp" => {
                 // write_into a dirty buffer of exactly byte_len() bytes, then read it back
-                let fill = u8::from_str_radix(p[1], 16).unwrap();
-                let mut dest = vec![fill; b.byte_len()];
+                // "<fill>" = exactly byte_len() bytes; "<fill>+<n>" = n bytes more than needed
+                let (fs, extra) = match p[1].split_once('+') {
+                    Some((f, e)) => (f, e.parse::<usize>().unwrap()),
+                    None => (p[1], 0),
+                };
+                let fill = u8::from_str_radix(fs, 16).unwrap();
+                let mut dest = vec![fill; b.byte_len() + extra];
                 match b.write_into(&mut dest) {
                     Err(e) => werr(&e),
                     Ok(k) => {
@@ -299,7 +304,7 @@ pub fn gen_rt(rng: &mut Rng, count: usize, thorough: bool, out: &mut Vec<String>
         ops.push(format!("q/{}/{}", ts, if seal == 0 { "-".to_string() } else { cred.clone() }));
         ops.push("t".into());
         // the in-place path into a dirty buffer must give a message that reads back the same
-        let fill = *rng.pick(&["ff", "5a", "01"]);
+        let fill = *rng.pick(&["ff", "5a", "01", "00", "ff+4", "00+16", "5a+1", "00+2000"]);
         ops.push(format!("wp/{}/{}", fill, if seal == 0 { "-".to_string() } else { cred.clone() }));
         if seal != 0 {
             // a different key must not validate
